@@ -319,6 +319,13 @@ struct Exec
                     continue;
                 }
                 auto t = twinOf(e);
+                bool deep = false;
+                if (auto ce = std::dynamic_pointer_cast<Component>(e)) {
+                    if (r.chance(1, 2)) {
+                        t = ce->clone(); // a look-alike with the same content (variables, resets, children), not only the same attributes
+                        deep = true;
+                    }
+                }
                 if (t == nullptr) {
                     continue;
                 }
@@ -360,7 +367,14 @@ struct Exec
                 } else if (auto rs = std::dynamic_pointer_cast<Reset>(t)) {
                     std::dynamic_pointer_cast<Component>(parent)->addReset(rs);
                 }
-                w.add(w.h[i].kind, t);
+                if (deep) {
+                    std::vector<int> registered;
+                    std::string shared;
+                    registerTree(t, 0, true, registered, shared);
+                    ctx.count("lookalike_deep_component_copies");
+                } else {
+                    w.add(w.h[i].kind, t);
+                }
                 ++made;
             }
         }
